@@ -12,7 +12,8 @@ vars == <<script, t, pc, i, inprog, log>>
 Cfg  == script.cfg
 Turn == script.turns[t]
 Add(evs) == log' = log \o evs
-BMark == << <<t, 0>> >>
+(* rep: the (deterministic) LLM produces the same text as in turn 1 again *)
+BMark == IF Turn.rep THEN << <<1, 0>> >> ELSE << <<t, 0>> >>
 
 (* verdict as the rail flow perceives it: a raising action yields None *)
 Blocks(v) == \/ v = "R"
@@ -31,6 +32,11 @@ BotSay(src, nm, flag, ov) ==
   LET utter == <<Ev("utter", -1, -1, src, <<>>, nm)>>
       refuse == <<Ev("utter", -1, -1, "refusal", <<>>, <<>>)>>
   IN IF flag \/ Cfg.nout = 0 THEN << utter, flag >>
+     ELSE IF Cfg.shape = "sync" THEN
+          (* rails that decide from the text without awaiting anything and abort silently *)
+          (IF src = "llm" /\ \E j \in 1..Cfg.nout : ov[j] = "R"
+             THEN << <<>>, IF FixedFlag THEN FALSE ELSE TRUE >>
+             ELSE << utter, FALSE >>)
      ELSE LET r == OutPass(0, nm, ov) IN
           IF r[2] THEN << r[1] \o refuse, IF FixedFlag THEN FALSE ELSE TRUE >>   \* rail aborted: flag never reset
           ELSE << r[1] \o utter, FALSE >>
